@@ -122,6 +122,18 @@ def cases(tier):
                         ini = [["x", "expr", "lin"], ["u", "const", -0.3]]
                         sd_["d"]["init"] = ini; sd_["tmpl_d"]["init"] = ini
                     out.append(dict(spec=sp, dev=list(names) + ["clone", "template_guess"]))
+    # clones made WITHOUT t0= / T=: they keep the template's horizon declaration (fixed, free end time, both times free)
+    # and the template's guesses of T / t0 / a time-dependent state guess
+    for nm in ("A", "B", "D", "E"):
+        for with_guess in (False, True):
+            sp = build((nm,), [], ["clone"])
+            sd_ = sp["stages"][0]
+            sd_["keep_horizon"] = True; sd_["tmpl"] = nm + "_keep%d" % with_guess
+            sd_["tmpl_d"] = copy.deepcopy(sd_["d"])
+            if with_guess:
+                ini = [["x", "expr", "lin"]] + ([["T", "const", 2.45]] if nm in ("D", "E") else []) + ([["t0", "const", -0.5]] if nm == "E" else [])
+                sd_["d"]["init"] = ini; sd_["tmpl_d"]["init"] = ini
+            out.append(dict(spec=sp, dev=[nm, "clone_keep_horizon"] + (["template_guess"] if with_guess else [])))
     # one method INSTANCE handed to every stage (documented as "will not be modified"): same NLP as with fresh instances
     for nm in ("A", "B", "C", "D", "E"):
         for n in (2, 3):
